@@ -169,6 +169,16 @@ func genCase(r *core.Rand) *kase {
 			k.omit[i] = r.Chance(1, 2)
 		}
 	}
+	// ---- exotic and invalid range expressions (provision-time parsing and its error path)
+	if r.Chance(1, 25) {
+		exotic := r.Pick([]string{"10.0.0.0/33", "nonsense", "10.0.0.1/", "::1/129", "1.2.3.4/8/8", "10.0.0.0/8%eth0", "/8", "256.0.0.1",
+			"fe80::1%eth0", "10.1.2.3/8", "fe80::1%eth0", "2001:db8::5/32", "::ffff:10.0.0.1", "010.0.0.1"})
+		if len(k.srvT) > 0 && !k.srvDyn && r.Chance(1, 2) {
+			k.srvT[r.Intn(len(k.srvT))] = exotic
+		} else {
+			k.hT = append(k.hT, exotic)
+		}
+	}
 	// ---- proxy loop: retried attempts, request header ops
 	if r.Chance(1, 3) {
 		k.fails = 1 + r.Intn(2)
@@ -272,11 +282,11 @@ func (p *prop) Generate(rng *core.Rand, tier string, emit func(string)) {
 	}
 	// a malformed stream: both sides must answer bad-op
 	for _, l := range []string{
-		"", "req", "nope 1 2 3", "req nil nil 0 . 000 - 0 - . . 0 0 0 0",
-		"req nil nil 0 . 000 - 0 - . . 0 0", "req nil nil 3 . 000 - 0 - . . 0 0 0 0", "req nil nil 0 . 00 - 0 - . . 0 0 0 0",
-		"req nil nil 0 . 000 zz 0 - . . 0 0 0 0", "req nil nil 0 . 000 - 4 - . . 0 0 0 0", "req 10.0.0.0/8 nil 0 nil 000 - 0 - . . 0 0 0 0",
-		"req x,y nil 0 . 000 - 0 - . . 0 0 0 0", "req nil nil 0 . 000 - 0 - 41 . 0 0 0 0", "req nil nil 0 . 000 - 0 - 41:42:43 . 0 0 0 0",
-		"req nil nil 0 . 000 - 0 - . . 3 0 0 0", "req nil nil 0 . 000 - 0 - . . 1 3 0 0", "req nil nil 0 . 000 - 0 - . . 2 2 0 0", "req nil nil 0 . 000 - 0 - . . 0 0 2 0", "req nil nil 0 . 000 - 0 - . . 0 0 0 3", "req nil nil 0 . 000 - 0 - . . 0 0 0",
+		"", "req", "nope 1 2 3", "req nil nil 0 . 000 - 0 - . . 0 0 0 0 .",
+		"req nil nil 0 . 000 - 0 - . . 0 0 .", "req nil nil 3 . 000 - 0 - . . 0 0 0 0 .", "req nil nil 0 . 00 - 0 - . . 0 0 0 0 .",
+		"req nil nil 0 . 000 zz 0 - . . 0 0 0 0 .", "req nil nil 0 . 000 - 4 - . . 0 0 0 0 .", "req 10.0.0.0/8 nil 0 nil 000 - 0 - . . 0 0 0 0 10",
+		"req x!,y nil 0 . 000 - 0 - . . 0 0 0 0 10,10", "req nil nil 0 . 000 - 0 - 41 . 0 0 0 0 .", "req nil nil 0 . 000 - 0 - 41:42:43 . 0 0 0 0 .",
+		"req nil nil 0 . 000 - 0 - . . 3 0 0 0 .", "req nil nil 0 . 000 - 0 - . . 1 3 0 0 .", "req nil nil 0 . 000 - 0 - . . 2 2 0 0 .", "req nil nil 0 . 000 - 0 - . . 0 0 2 0 .", "req nil nil 0 . 000 - 0 - . . 0 0 0 3 .", "req nil nil 0 . 000 - 0 - . . 0 0 0 .",
 	} {
 		emit(l)
 	}
